@@ -123,7 +123,9 @@ fn reader(stdout: std::process::ChildStdout, tx: mpsc::Sender<Value>) {
 
 /// Runs one session. `Err` is a machinery failure (the server hangs, cannot be spawned, ...).
 pub fn run_session(ls: &std::path::Path, uris: &[Url; 2], s: &Session, pacing: Pacing) -> Result<SessionResult, String> {
+    // RUST_BACKTRACE=0: with a backtrace every panic in the server costs seconds of symbolisation
     let mut child = Command::new(ls)
+        .env("RUST_BACKTRACE", "0")
         .stdin(Stdio::piped())
         .stdout(Stdio::piped())
         .stderr(Stdio::piped())
@@ -165,10 +167,22 @@ pub fn run_session(ls: &std::path::Path, uris: &[Url; 2], s: &Session, pacing: P
 
     let mut received: Vec<Value> = vec![];
     let mut eof = false;
-    let hang = |child: &mut std::process::Child, what: &str| -> String {
+    let hang = |child: &mut std::process::Child, what: &str, received: &Vec<Value>| -> String {
+        let state = format!("{:?}", child.try_wait());
+        let mut threads = String::new();
+        if let Ok(rd) = std::fs::read_dir(format!("/proc/{}/task", child.id())) {
+            for t in rd.flatten() {
+                let f = |n: &str| std::fs::read_to_string(t.path().join(n)).unwrap_or_default().trim().replace('\n', " < ");
+                threads.push_str(&format!(" [{} wchan={} syscall={} stack={}]", f("comm"), f("wchan"), f("syscall"), f("stack")));
+            }
+        }
         let _ = child.kill();
         let _ = child.wait();
-        format!("lelwel-ls neither answered nor exited within {TIMEOUT:?} ({what})")
+        format!(
+            "lelwel-ls neither answered nor exited within {TIMEOUT:?} ({what}; process state before kill {state}; {} messages received, threads:{threads}, last: {})",
+            received.len(),
+            received.last().map_or("-".to_string(), |v| v.to_string().chars().take(200).collect())
+        )
     };
     match pacing {
         Pacing::Burst => {
@@ -202,7 +216,7 @@ pub fn run_session(ls: &std::path::Path, uris: &[Url; 2], s: &Session, pacing: P
                             received.push(v);
                         }
                         Err(mpsc::RecvTimeoutError::Disconnected) => eof = true,
-                        Err(mpsc::RecvTimeoutError::Timeout) => return Err(hang(&mut child, "lock-step wait")),
+                        Err(mpsc::RecvTimeoutError::Timeout) => return Err(hang(&mut child, &format!("lock-step wait after sending {m}"), &received)),
                     }
                 }
                 if eof {
@@ -219,14 +233,14 @@ pub fn run_session(ls: &std::path::Path, uris: &[Url; 2], s: &Session, pacing: P
         match rx.recv_timeout(TIMEOUT) {
             Ok(v) => received.push(v),
             Err(mpsc::RecvTimeoutError::Disconnected) => eof = true,
-            Err(mpsc::RecvTimeoutError::Timeout) => return Err(hang(&mut child, "waiting for end of output")),
+            Err(mpsc::RecvTimeoutError::Timeout) => return Err(hang(&mut child, "waiting for end of output", &received)),
         }
     }
     let start = Instant::now();
     let status = loop {
         match child.try_wait() {
             Ok(Some(st)) => break st,
-            Ok(None) if start.elapsed() > TIMEOUT => return Err(hang(&mut child, "waiting for exit")),
+            Ok(None) if start.elapsed() > TIMEOUT => return Err(hang(&mut child, "waiting for exit", &received)),
             Ok(None) => std::thread::sleep(Duration::from_millis(1)),
             Err(e) => return Err(format!("wait failed: {e}")),
         }
